@@ -16,7 +16,7 @@ CONSTANTS Universe, TypeDepth0, MaxArgs, MaxItems, RichArgs   \* RichArgs: insta
 \* ---------------------------------------------------------------- types
 ConstQ == {<<c, q>> : c \in BOOLEAN, q \in Quals}
 LeafNames == { <<"double", TRUE>>, <<"unsigned char", TRUE>>, <<"A", FALSE>>, <<"T", FALSE>> }
-LeafQns   == { <<"double">>, <<"unsigned char">>, <<"A">>, <<"ns1", "inner", "Pose3">>, <<"T">>, <<"T", "Value">>,
+LeafQns   == { <<"double">>, <<"unsigned char">>, <<"A">>, <<"ns1", "inner", "Pose3">>, <<"T">>, <<"T", "Value">>, <<"T", "Traits", "Tangent">>,
                <<"Tools", "Index">>, <<"ns", "T">> }    \* the last two merely contain the parameter's spelling
 IsBasicQn(qn) == Len(qn) = 1 /\ qn[1] \in BasicNames
 Sibling == Ty(<<"Key">>, <<>>, FALSE, "", FALSE)
